@@ -86,7 +86,7 @@ def check_cell(prop, c):
     viol = [l for l in lines if l.startswith('VIOLATION')]
     caught = c.get('caught')
     if caught is None:
-        caught = (c.get('rc') == 1 and bool(viol))
+        caught = (c.get('rc') == 1)   # exit 1 is only ever returned together with a VIOLATION line (the stored line list is truncated)
     wall = c.get('wall_s')
     if caught:
         detail = (c.get('detail') or [])
